@@ -1,6 +1,7 @@
 /-
 C02 — Termination cancels every coroutine payload and finishes its cleanup first.
 -/
+import CobaldVerif.Generated.Src
 import CobaldVerif.Lemmas.RuntimeProgress
 
 namespace Cobald.Props.C02
@@ -121,5 +122,34 @@ example : (run St.init ((trace.take 14) ++ [.rtaskEnd .aio, .rtaskEnd .trio, .rt
 -- the hypotheses of `termination_despite_threads` hold with a thread payload still running
 example : ((run St.init (trace.take 15)).map (fun s => (s.phase, decide s.closing, decide s.coQuiet, s.pay 3))) =
     some (.up, true, true, .running) := by decide +kernel
+
+/-! ### the runtime glue as written in the source
+
+The model of this property was transcribed from these functions of `cobald/daemon/runners/`
+(closing: the events `close`, `unwound`, `rtaskEnd`, `gatherRaise`, `gatherDone`, `endRun` of the LTS and their guards).
+`Gen.runtimePins` is recomputed on every run: the normalised text of every function of the runner
+modules (docstrings, annotations and logging statements dropped) is compared with the text the
+model was last transcribed from (`harness/vh/pins.json`). A changed function breaks this theorem;
+the scenario families are then the search for a failing history. -/
+
+theorem gen_runtime_text :
+    ∀ n ∈ ["asyncio_runner:AsyncioRunner.aclose",
+     "asyncio_runner:AsyncioRunner.manage_payloads",
+     "asyncio_runner:AsyncioRunner._monitor_payload",
+     "trio_runner:TrioRunner.aclose",
+     "trio_runner:TrioRunner._aclose_trio",
+     "trio_runner:TrioRunner.manage_payloads",
+     "trio_runner:TrioRunner._manage_payloads_trio",
+     "trio_runner:TrioRunner._monitor_payload",
+     "thread_runner:ThreadRunner.aclose",
+     "thread_runner:ThreadRunner.manage_payloads",
+     "base_runner:BaseRunner.run",
+     "base_runner:BaseRunner.stop",
+     "base_runner:BaseRunner.aclose",
+     "meta_runner:MetaRunner._manage_runners",
+     "meta_runner:MetaRunner._aclose_runners",
+     "meta_runner:MetaRunner.stop",
+     "meta_runner:MetaRunner.run"],
+      Gen.pinned n = true := by decide
 
 end Cobald.Props.C02
